@@ -161,7 +161,14 @@ pub fn dash_path(path: &Path, dash_array: &[f32], mut dash_offset: f32) -> Path 
 
                     if state.on {
                         if first_dash {
-                            // If we're still on the first dash we can just close
+                            // If we're still on the first dash the whole subpath is solid:
+                            // emit the buffered outline and close it
+                            if let Some(first) = initial_segment.first() {
+                                dashed.move_to(first.x, first.y);
+                                for pt in initial_segment.iter().skip(1) {
+                                    dashed.line_to(pt.x, pt.y);
+                                }
+                            }
                             dashed.close();
                         } else {
                             if initial_segment.len() > 0 {
